@@ -367,6 +367,8 @@ def check(scenario, w, st, res, ids):
                        tuple((tuple(h['types']), h['early'], h['do'])
                              for h in scenario['handlers']))]
     ob()
+    if sim.end_state == 'inconclusive':
+        return
     if sim.end_state != 'done':
         V.append(('C14/%s' % sim.end_state, repr(sim.end_detail)))
         return
